@@ -64,6 +64,8 @@ def _name_positions(ctx, repo) -> None:
 
 def check(ctx) -> None:
     repo = ctx.repo
+    ctx.rule("C24.seed-file", "ABSINT: _read_module_source over every order of a directory listing (plus __pycache__ byte code, plus the test file of a module whose name contains this one) reads test_<module>.py", floor=12)
+    _seed_file(ctx, repo)
     ctx.rule("C24.escape", "WHO-MAY: no read of a libcst string node's raw_value (escape sequences unprocessed) where the value of a literal is needed; expected count zero, detector self-checked on a synthetic positive", floor=1)
     from sa.engine.prop import raw_string_value_reads, raw_string_value_selfcheck
     if not raw_string_value_selfcheck():
@@ -235,3 +237,80 @@ def check(ctx) -> None:
     meths = repo.methods(norm_cls)
     for need, why in (("_handle_import", "`import M`"), ("_handle_import_from", "`from M import names`"), ("leave_SimpleStatementLine", "statement-level handling (alias = sys.modules['M'])")):
         ctx.check("C24.imports", norm_cls, need in meths, f"_SutReferenceNormalizer lost `{need}` ({why})", what=f"normalizer handles {why}", stmt=f"[{need}]")
+
+
+def _seed_file(ctx, repo) -> None:
+    """_read_module_source, interpreted over directory listings: the file that is read is the source file the exporter
+    writes for the module (test_<module>.py in the given directory), whatever else carries the module's name - byte-code
+    files in __pycache__, test files of modules whose name contains this one - and whatever order the listing has."""
+    import io
+    import itertools
+
+    from sa.engine import peval
+
+    fn = repo.try_func(SEED, "InitialPopulationProvider._read_module_source")
+    if fn is None:
+        raise AnalysisError("anchor vanished: InitialPopulationProvider._read_module_source")
+    ctx.analysed(fn)
+    mod = repo.module(SEED)
+
+    class _P:
+        def __init__(self, p):
+            self.p = str(getattr(p, "p", p))
+
+        @property
+        def name(self):
+            return self.p.rsplit("/", 1)[-1]
+
+        @property
+        def suffix(self):
+            n = self.name
+            return "." + n.rsplit(".", 1)[1] if "." in n else ""
+
+        def resolve(self):
+            return self
+
+        def __truediv__(self, other):
+            return _P(self.p.rstrip("/") + "/" + str(getattr(other, "p", other)))
+
+        def open(self, mode="r", encoding=None, **_k):
+            if self.p.endswith(".pyc"):
+                raise peval.Raises("UnicodeDecodeError", "byte code is not UTF-8")
+            return io.StringIO(f"<content of {self.p}>")
+
+        def read_text(self, encoding=None, **_k):
+            return self.open().read()
+
+        def __lt__(self, other):
+            return self.p < other.p
+
+        def __eq__(self, other):
+            return isinstance(other, _P) and self.p == other.p
+
+        def __hash__(self):
+            return hash(self.p)
+
+    top = ["test_io.py", "test_io_utils.py", "conftest.py"]
+    cache = ["test_io.cpython-312-pytest-8.pyc", "test_io_utils.cpython-312-pytest-8.pyc"]
+    n = 0
+    for order in itertools.permutations(top):
+        for cache_first in (False, True):
+            walk = [("/out", ["__pycache__"], list(order)), ("/out/__pycache__", [], list(cache))]
+            if cache_first:
+                walk = walk[::-1]
+            tag = f"[seed file] listing {list(order)}{' (cache directory listed first)' if cache_first else ''}"
+            it = peval.Interp(resolver=peval.repo_resolver(repo), native_types=(_P, io.IOBase), max_steps=50000,
+                              externs={"os.walk": lambda _p, walk=walk: list(walk), "Path": _P, "stat.track_output_variable": lambda *a, **k: None, "logger.debug": lambda *a, **k: None, "logger.exception": lambda *a, **k: None, "logger.info": lambda *a, **k: None, "logger.warning": lambda *a, **k: None},
+                              consts={"config.configuration.module_name": "pkg.io"})
+            try:
+                got = it.run_function(fn, ["/out"], {}, mod)
+            except peval.Undecided as exc:
+                ctx.undecide("C24.seed-file", fn, f"{tag}: {exc}")
+                return
+            except peval.Raises as exc:
+                got = f"raises {exc.name}"
+            n += 1
+            if n > 4 and got == "<content of /out/test_io.py>":
+                ctx.ok("C24.seed-file", fn, tag)
+                continue
+            ctx.check("C24.seed-file", fn, got == "<content of /out/test_io.py>", f"{tag}: the provider reads {got!r} for the module `io`, the exported tests are in /out/test_io.py: none (or the wrong ones) of the exported test functions come back", what=tag, stmt=tag)
